@@ -3,7 +3,7 @@ import numpy as np
 from ... import graph, grouping, util
 from ...constants import tol_path
 from ...typed import ArrayLike, Dict, NDArray, Optional
-from ..entities import Arc, Line
+from ..entities import Arc, Bezier, BSpline, Line
 
 
 def dict_to_path(as_dict):
@@ -24,7 +24,7 @@ def dict_to_path(as_dict):
     # start kwargs with initial value
     result = as_dict.copy()
     # map of constructors
-    loaders = {"Arc": Arc, "Line": Line}
+    loaders = {"Arc": Arc, "Line": Line, "Bezier": Bezier}
     # pre- allocate entity array
     entities = [None] * len(as_dict["entities"])
     # run constructor for dict kwargs
@@ -33,6 +33,11 @@ def dict_to_path(as_dict):
             # only an arc stores whether it is closed explicitly
             entities[entity_index] = Arc(
                 points=entity["points"], closed=entity["closed"]
+            )
+        elif entity["type"] == "BSpline":
+            # a spline is control points and a knot vector
+            entities[entity_index] = BSpline(
+                points=entity["points"], knots=entity["knots"]
             )
         else:
             entities[entity_index] = loaders[entity["type"]](points=entity["points"])
